@@ -182,6 +182,109 @@ class SimLoop(asyncio.SelectorEventLoop):
         return self._sim.now / 1e9
 
 
+# ---------------------------------------------------------------- caller threads under a seeded scheduler
+class ThreadSched:
+    """Real caller threads, released one at a time. A thread runs until it parks
+    (blocking receive on an empty queue, sleep), yields at a scheduling point, or ends;
+    then the scheduler - using only the plan's seed - picks who runs next, or advances
+    virtual time when every thread is parked. Who runs is never left to the OS."""
+
+    MAIN = -1
+
+    def __init__(self, sim, rng, yield_p=0.3):
+        import threading
+
+        self.sim = sim
+        self.rng = rng
+        self.yield_p = yield_p
+        self.cond = threading.Condition()
+        self.current = self.MAIN
+        self.state = {}  # tid -> "runnable" | ("parked", ready_fn, deadline) | "done"
+        self.by_ident = {}
+        self.errors = []
+        self.switches = 0
+
+    def _me(self):
+        import threading
+
+        return self.by_ident[threading.get_ident()]
+
+    def _handoff_and_wait(self, me):
+        with self.cond:
+            self.current = self.MAIN
+            self.cond.notify_all()
+            while self.current != me:
+                self.cond.wait()
+
+    def park(self, ready_fn, deadline):
+        me = self._me()
+        self.state[me] = ("parked", ready_fn, deadline)
+        self._handoff_and_wait(me)
+
+    def maybe_yield(self):
+        if self.rng.random() < self.yield_p:
+            me = self._me()
+            self.state[me] = "runnable"
+            self.sim.count("sched.thread-yield")
+            self._handoff_and_wait(me)
+
+    def run(self, fns):
+        import threading
+
+        threads = []
+        for tid, fn in enumerate(fns):
+            self.state[tid] = "runnable"
+
+            def body(tid=tid, fn=fn):
+                self.by_ident[threading.get_ident()] = tid
+                with self.cond:
+                    while self.current != tid:
+                        self.cond.wait()
+                try:
+                    fn()
+                except BaseException as e:  # noqa: BLE001
+                    self.errors.append(e)
+                self.state[tid] = "done"
+                with self.cond:
+                    self.current = self.MAIN
+                    self.cond.notify_all()
+
+            t = threading.Thread(target=body, daemon=True)
+            threads.append(t)
+            t.start()
+        sim = self.sim
+        while True:
+            runnable = sorted(t for t, st in self.state.items() if st == "runnable")
+            if runnable:
+                nxt = self.rng.choice(runnable)
+                self.switches += 1
+                with self.cond:
+                    self.current = nxt
+                    self.cond.notify_all()
+                    while self.current != self.MAIN:
+                        self.cond.wait()
+                continue
+            parked = [(t, st) for t, st in self.state.items() if isinstance(st, tuple)]
+            if not parked:
+                break
+            # everybody waits: let virtual time pass until somebody can go on
+            target = min(st[2] for _, st in parked)
+            sim.run_until(target, stop=lambda: any(st[1]() for _, st in parked))
+            for t, st in parked:
+                if st[1]() or sim.now >= st[2]:
+                    self.state[t] = "runnable"
+            held = sum(1 for _, st in parked)
+            if held >= 3:
+                sim.count("probe.three-threads-parked-holding-buffers")
+        for t in threads:
+            t.join(timeout=10)
+        if self.errors:
+            e = self.errors[0]
+            if isinstance(e, HarnessError):
+                raise e
+            raise HarnessError("caller thread failed: %r" % (e,)) from e
+
+
 # ---------------------------------------------------------------- the run
 DEFAULT_SCRIPT = {"replies": [{"k": "genuine"}]}
 
@@ -420,7 +523,7 @@ class Run:
 
     def make_session(self, idx, cfg):
         g = self.g
-        cls = g.aclient.SnmpSession if cfg.get("flavour", "sync") == "async" else g.sclient.SnmpSession
+        cls = g.aclient.SnmpSession if cfg.get("flavour", "sync") == "async" else g.sclient.SnmpSession  # "threads" = sync client
         kw = {}
         ver = {"v1": g.SnmpVersion.v1, "v2c": g.SnmpVersion.v2c, "v3": g.SnmpVersion.v3}[cfg.get("version", "v2c")]
         if not cfg.get("version_auto"):
@@ -698,12 +801,42 @@ class Run:
             if flavour == "sync":
                 for i, op in ops:
                     self.do_sync(i, op)
+            elif flavour == "threads":
+                self.run_threads(ops)
             else:
                 self.run_async(ops)
         finally:
             fast._verif_install(None)
             self.sessions.clear()
         return self
+
+    def run_threads(self, ops):
+        """Sync sessions, one caller thread per session, under the seeded scheduler."""
+        per = {}
+        for i, op in ops:
+            if op["op"] == "agent":
+                continue
+            per.setdefault(op.get("s", 0), []).append((i, op))
+        sched = ThreadSched(self.sim, random.Random(self.plan.get("sched_seed", 0)), self.plan.get("yield_p", 0.3))
+        self.sim.sched = sched
+
+        def make(s, lst):
+            def fn():
+                for i, op in lst:
+                    if op["op"] == "idle":
+                        self.sim.log("idle", self.sim.now, op["ns"])
+                        sched.park(lambda: False, self.sim.now + op["ns"])
+                    else:
+                        self.do_sync(i, op)
+                    sched.maybe_yield()
+
+            return fn
+
+        try:
+            sched.run([make(s, lst) for s, lst in sorted(per.items())])
+        finally:
+            self.sim.sched = None
+        self.sim.count("sched.thread-switches", sched.switches)
 
     def run_async(self, ops):
         order_rng = random.Random(self.plan.get("ready_order_seed", 0))
